@@ -148,104 +148,122 @@ Proof.
 Qed.
 
 (* the defining equation of the decode loop *)
-Lemma drain_eq : forall jo buf,
-  drain jo 0 buf =
+Lemma drain_eq : forall jc buf,
+  drain jc 0 buf =
   match decode buf with
   | NeedMore => ([], Some buf)
   | Bad => ([EErr], None)
   | Crash => ([ECrash], None)
   | Frame m n =>
-      if jo m
-      then let (ev, r) := drain jo 0 (skipn (N.to_nat n) buf) in (EMsg m :: ev, r)
-      else ([EBadJson m], None)
+      match jc m with
+      | JMsg => let (ev, r) := drain jc 0 (skipn (N.to_nat n) buf) in (EMsg m :: ev, r)
+      | JNull => ([], Some (skipn (N.to_nat n) buf))
+      | JBad => ([EBadJson m], None)
+      end
   end.
 Proof.
-  intros jo [|a t].
+  intros jc [|a t].
   - reflexivity.
   - cbn [drain]. destruct (decode (a :: t)) as [|m n| |] eqn:D; try reflexivity.
-    destruct (jo m); [|reflexivity].
     apply decode_frame_bounds in D. destruct D as [D1 D2]. rewrite blen_cons in D2.
-    rewrite drain_skip by (unfold blen in D2; lia).
-    replace (N.to_nat n) with (S (N.to_nat n - 1)) at 2 by lia.
-    reflexivity.
+    assert (E : skipn (N.to_nat n) (a :: t) = skipn (N.to_nat n - 1) t).
+    { replace (N.to_nat n) with (S (N.to_nat n - 1)) at 1 by lia. reflexivity. }
+    rewrite E.
+    destruct (jc m); try reflexivity.
+    rewrite drain_skip by (unfold blen in D2; lia). reflexivity.
 Qed.
+
+(* a body classification without the consumed-but-Ok(None) outcome *)
+Definition no_null (jc : list N -> jclass) : Prop := forall b, jc b <> JNull.
+
+Lemma jc_of_bool_no_null : forall json_ok, no_null (jc_of_bool json_ok).
+Proof. intros json_ok b. unfold jc_of_bool. destruct (json_ok b); discriminate. Qed.
 
 (* draining a longer buffer: same events while the shorter buffer has frames, then the loop goes
    on with the remainder followed by the new bytes (unless it was stopped by an error) *)
-Lemma drain_app_aux : forall jo x n buf, (length buf < n)%nat ->
-  match drain jo 0 buf with
-  | (ev, None) => drain jo 0 (buf ++ x) = (ev, None)
-  | (ev, Some r) => drain jo 0 (buf ++ x) = (let (ev', r') := drain jo 0 (r ++ x) in (ev ++ ev', r'))
+Lemma drain_app_aux : forall jc x, no_null jc -> forall n buf, (length buf < n)%nat ->
+  match drain jc 0 buf with
+  | (ev, None) => drain jc 0 (buf ++ x) = (ev, None)
+  | (ev, Some r) => drain jc 0 (buf ++ x) = (let (ev', r') := drain jc 0 (r ++ x) in (ev ++ ev', r'))
   end.
 Proof.
-  intros jo x. induction n as [|n IH]; intros buf Hn; [lia|].
-  rewrite (drain_eq jo buf). destruct (decode buf) as [|m k| |] eqn:D.
-  - destruct (drain jo 0 (buf ++ x)); reflexivity.
+  intros jc x NN. induction n as [|n IH]; intros buf Hn; [lia|].
+  rewrite (drain_eq jc buf). destruct (decode buf) as [|m k| |] eqn:D.
+  - destruct (drain jc 0 (buf ++ x)); reflexivity.
   - pose proof (decode_frame_bounds _ _ _ D) as [B1 B2]. unfold blen in B2.
-    destruct (jo m) eqn:J.
+    destruct (jc m) eqn:J.
     + specialize (IH (skipn (N.to_nat k) buf)).
       rewrite skipn_length in IH. specialize (IH ltac:(lia)).
-      destruct (drain jo 0 (skipn (N.to_nat k) buf)) as [ev [r|]] eqn:E.
-      * rewrite (drain_eq jo (buf ++ x)), (decode_mono_frame _ x _ _ D), J.
+      destruct (drain jc 0 (skipn (N.to_nat k) buf)) as [ev [r|]] eqn:E.
+      * rewrite (drain_eq jc (buf ++ x)), (decode_mono_frame _ x _ _ D), J.
         rewrite skipn_app_le by lia. rewrite IH.
-        destruct (drain jo 0 (r ++ x)); reflexivity.
-      * rewrite (drain_eq jo (buf ++ x)), (decode_mono_frame _ x _ _ D), J.
+        destruct (drain jc 0 (r ++ x)); reflexivity.
+      * rewrite (drain_eq jc (buf ++ x)), (decode_mono_frame _ x _ _ D), J.
         rewrite skipn_app_le by lia. rewrite IH. reflexivity.
-    + rewrite (drain_eq jo (buf ++ x)), (decode_mono_frame _ x _ _ D), J. reflexivity.
-  - rewrite (drain_eq jo (buf ++ x)), (decode_mono_bad _ x D). reflexivity.
-  - rewrite (drain_eq jo (buf ++ x)), (decode_mono_crash _ x D). reflexivity.
+    + exfalso. exact (NN m J).
+    + rewrite (drain_eq jc (buf ++ x)), (decode_mono_frame _ x _ _ D), J. reflexivity.
+  - rewrite (drain_eq jc (buf ++ x)), (decode_mono_bad _ x D). reflexivity.
+  - rewrite (drain_eq jc (buf ++ x)), (decode_mono_crash _ x D). reflexivity.
 Qed.
 
-Lemma drain_app_none : forall jo buf x ev,
-  drain jo 0 buf = (ev, None) -> drain jo 0 (buf ++ x) = (ev, None).
+Lemma drain_app_none : forall jc buf x ev, no_null jc ->
+  drain jc 0 buf = (ev, None) -> drain jc 0 (buf ++ x) = (ev, None).
 Proof.
-  intros jo buf x ev H. pose proof (drain_app_aux jo x (S (length buf)) buf ltac:(lia)) as A.
+  intros jc buf x ev NN H. pose proof (drain_app_aux jc x NN (S (length buf)) buf ltac:(lia)) as A.
   rewrite H in A. exact A.
 Qed.
 
-Lemma drain_app_some : forall jo buf x ev r,
-  drain jo 0 buf = (ev, Some r) ->
-  drain jo 0 (buf ++ x) = (let (ev', r') := drain jo 0 (r ++ x) in (ev ++ ev', r')).
+Lemma drain_app_some : forall jc buf x ev r, no_null jc ->
+  drain jc 0 buf = (ev, Some r) ->
+  drain jc 0 (buf ++ x) = (let (ev', r') := drain jc 0 (r ++ x) in (ev ++ ev', r')).
 Proof.
-  intros jo buf x ev r H. pose proof (drain_app_aux jo x (S (length buf)) buf ltac:(lia)) as A.
+  intros jc buf x ev r NN H. pose proof (drain_app_aux jc x NN (S (length buf)) buf ltac:(lia)) as A.
   rewrite H in A. exact A.
 Qed.
 
 (* the same for the end-of-input step *)
-Lemma at_eof_app_none : forall jo buf x ev,
-  drain jo 0 buf = (ev, None) -> at_eof jo (buf ++ x) = ev.
-Proof. intros. unfold at_eof. rewrite (drain_app_none _ _ x _ H). reflexivity. Qed.
+Lemma at_eof_app_none : forall jc buf x ev, no_null jc ->
+  drain jc 0 buf = (ev, None) -> at_eof jc (buf ++ x) = ev.
+Proof. intros jc buf x ev NN H. unfold at_eof. rewrite (drain_app_none _ _ x _ NN H). reflexivity. Qed.
 
-Lemma at_eof_app_some : forall jo buf x ev r,
-  drain jo 0 buf = (ev, Some r) -> at_eof jo (buf ++ x) = ev ++ at_eof jo (r ++ x).
+Lemma at_eof_app_some : forall jc buf x ev r, no_null jc ->
+  drain jc 0 buf = (ev, Some r) -> at_eof jc (buf ++ x) = ev ++ at_eof jc (r ++ x).
 Proof.
-  intros. unfold at_eof. rewrite (drain_app_some _ _ x _ _ H).
-  destruct (drain jo 0 (r ++ x)) as [ev' [[|a t]|]]; try reflexivity.
+  intros jc buf x ev r NN H. unfold at_eof. rewrite (drain_app_some _ _ x _ _ NN H).
+  destruct (drain jc 0 (r ++ x)) as [ev' [[|a t]|]]; try reflexivity.
   symmetry. apply app_assoc.
 Qed.
 
 (* the events of a segmented stream are those of the whole stream handed over at once *)
-Lemma feed_chunks_concat : forall jo chunks buf,
-  feed_chunks jo buf chunks = at_eof jo (buf ++ concat chunks).
+Lemma feed_chunks_concat : forall jc, no_null jc -> forall chunks buf,
+  feed_chunks jc buf chunks = at_eof jc (buf ++ concat chunks).
 Proof.
-  intros jo. induction chunks as [|c cs IH]; intros buf; cbn [feed_chunks concat].
+  intros jc NN. induction chunks as [|c cs IH]; intros buf; cbn [feed_chunks concat].
   - rewrite app_nil_r. reflexivity.
-  - rewrite app_assoc. destruct (drain jo 0 (buf ++ c)) as [ev [r|]] eqn:E.
-    + rewrite (at_eof_app_some _ _ _ _ _ E), IH. reflexivity.
-    + rewrite (at_eof_app_none _ _ _ _ E). reflexivity.
+  - rewrite app_assoc. destruct (drain jc 0 (buf ++ c)) as [ev [r|]] eqn:E.
+    + rewrite (at_eof_app_some _ _ _ _ _ NN E), IH. reflexivity.
+    + rewrite (at_eof_app_none _ _ _ _ NN E). reflexivity.
 Qed.
 
-Lemma run_chunks_concat : forall jo chunks, run_chunks jo chunks = at_eof jo (concat chunks).
-Proof. intros. unfold run_chunks. rewrite feed_chunks_concat. reflexivity. Qed.
+Lemma run_chunks_pinned_concat : forall jc chunks, no_null jc ->
+  run_chunks_pinned jc chunks = at_eof jc (concat chunks).
+Proof. intros. unfold run_chunks_pinned. rewrite feed_chunks_concat by assumption. reflexivity. Qed.
 
-Lemma chunking : forall jo chunks, run_chunks jo chunks = run_chunks jo [concat chunks].
+Lemma chunking_pinned : forall jc chunks, no_null jc ->
+  run_chunks_pinned jc chunks = run_chunks_pinned jc [concat chunks].
 Proof.
-  intros. rewrite !run_chunks_concat. cbn [concat]. rewrite app_nil_r. reflexivity.
+  intros. rewrite !run_chunks_pinned_concat by assumption. cbn [concat]. rewrite app_nil_r. reflexivity.
 Qed.
+
+Lemma chunking : forall json_ok chunks, run_chunks json_ok chunks = run_chunks json_ok [concat chunks].
+Proof. intros. unfold run_chunks. apply chunking_pinned. apply jc_of_bool_no_null. Qed.
 
 (* two segmentations of the same byte stream give the same events *)
-Lemma chunking_any : forall jo c1 c2, concat c1 = concat c2 -> run_chunks jo c1 = run_chunks jo c2.
-Proof. intros. rewrite !run_chunks_concat. congruence. Qed.
+Lemma chunking_any : forall json_ok c1 c2,
+  concat c1 = concat c2 -> run_chunks json_ok c1 = run_chunks json_ok c2.
+Proof.
+  intros. unfold run_chunks. rewrite !run_chunks_pinned_concat by apply jc_of_bool_no_null. congruence.
+Qed.
 
 (* ------------------------------------------------------------------------------------------ *)
 (* 4. the decimal printer and the usize parser are inverse *)
@@ -481,24 +499,59 @@ Proof.
 Qed.
 
 (* hence a stream of encoded frames is decoded to exactly their bodies, whatever the reads *)
-Lemma at_eof_frames : forall jo bodies,
-  Forall (fun b => jo b = true /\ blen (encode_frame b) < USIZE_LIMIT) bodies ->
-  at_eof jo (concat (map encode_frame bodies)) = map EMsg bodies.
+Lemma at_eof_frames : forall jc bodies,
+  Forall (fun b => jc b = JMsg /\ blen (encode_frame b) < USIZE_LIMIT) bodies ->
+  at_eof jc (concat (map encode_frame bodies)) = map EMsg bodies.
 Proof.
-  intros jo. induction bodies as [|b bs IH]; intros H.
+  intros jc. induction bodies as [|b bs IH]; intros H.
   - reflexivity.
   - inversion H as [|? ? [J L] H']; subst. specialize (IH H').
     cbn [map concat]. unfold at_eof in *.
     rewrite drain_eq, (decode_encode_frame _ _ L), J.
     unfold blen. rewrite Nat2N.id, skipn_app_exact.
-    destruct (drain jo 0 (concat (map encode_frame bs))) as [ev [[|a t]|]];
+    destruct (drain jc 0 (concat (map encode_frame bs))) as [ev [[|a t]|]];
       cbn [app] in *; rewrite <- IH; reflexivity.
 Qed.
 
-Lemma stream : forall jo bodies chunks,
-  Forall (fun b => jo b = true /\ blen (encode_frame b) < USIZE_LIMIT) bodies ->
+Lemma stream_pinned : forall jc bodies chunks, no_null jc ->
+  Forall (fun b => jc b = JMsg /\ blen (encode_frame b) < USIZE_LIMIT) bodies ->
   concat chunks = concat (map encode_frame bodies) ->
-  run_chunks jo chunks = map EMsg bodies.
+  run_chunks_pinned jc chunks = map EMsg bodies.
 Proof.
-  intros jo bodies chunks H E. rewrite run_chunks_concat, E. apply at_eof_frames. assumption.
+  intros jc bodies chunks NN H E. rewrite run_chunks_pinned_concat, E by assumption.
+  apply at_eof_frames. assumption.
+Qed.
+
+Lemma stream : forall json_ok bodies chunks,
+  Forall (fun b => json_ok b = true /\ blen (encode_frame b) < USIZE_LIMIT) bodies ->
+  concat chunks = concat (map encode_frame bodies) ->
+  run_chunks json_ok chunks = map EMsg bodies.
+Proof.
+  intros json_ok bodies chunks H E. unfold run_chunks.
+  apply stream_pinned; [apply jc_of_bool_no_null | | assumption].
+  eapply Forall_impl; [|exact H]. intros b [J L]. split; [|assumption].
+  unfold jc_of_bool. rewrite J. reflexivity.
+Qed.
+
+(* ------------------------------------------------------------------------------------------ *)
+(* 6. regression witness.  Before /repo commit e5c7771 decode deserialised the body to
+   Option<Message>: a body `null` was consumed with Ok(None) (JNull), FramedRead then waits for the
+   next read (or gives up at end of input) although complete frames are left in its buffer.  With
+   that outcome the loop is NOT independent of the segmentation: *)
+
+Definition NULL_BODY : list N := [110; 117; 108; 108].   (* null *)
+Definition jc_null (b : list N) : jclass := if bytes_eqb b NULL_BODY then JNull else JMsg.
+
+Lemma pinned_null_counterexample :
+  let n := encode_frame NULL_BODY in
+  let a := encode_frame [123; 125] in
+  run_chunks_pinned jc_null [n; n ++ a] = [EMsg [123; 125]]
+  /\ run_chunks_pinned jc_null [n ++ n ++ a] = [ETrailing].
+Proof. vm_compute. split; reflexivity. Qed.
+
+Lemma pinned_not_chunking_independent :
+  exists jc chunks, run_chunks_pinned jc chunks <> run_chunks_pinned jc [concat chunks].
+Proof.
+  exists jc_null, [encode_frame NULL_BODY; encode_frame NULL_BODY ++ encode_frame [123; 125]].
+  vm_compute. discriminate.
 Qed.
